@@ -531,11 +531,11 @@ Section Inv.
     - apply IH. split; simpl; [exact Hts | apply pop_cancel_sh; exact Hh].
   Qed.
 
-  Lemma step_ok : forall top prot preds fuel s e, Inv s -> Inv (step defs mode top prot preds fuel s e).
+  Lemma step_ok : forall top prot preds guard fuel s e, Inv s -> Inv (step defs mode top prot preds guard fuel s e).
   Proof.
-    intros top prot preds fuel s e [Hts Hh]. unfold step.
+    intros top prot preds guard fuel s e [Hts Hh]. unfold step.
     destruct (s_oof s); [split; assumption|].
-    destruct (can_start top preds s e).
+    destruct (can_start top preds guard s e).
     - apply deliver_all_ok.
       set (t0 := mkT e _ _ [] None _).
       set (h0 := match inherited_ctx preds s e with Some _ => s_sh s | None => _ end).
@@ -554,9 +554,9 @@ Section Inv.
       apply deliver_all_ok. apply run_at_ok; assumption.
   Qed.
 
-  Lemma schedule_ok : forall top prot preds fuel sched s, Inv s -> Inv (run_schedule defs mode top prot preds fuel s sched).
+  Lemma schedule_ok : forall top prot preds guard fuel sched s, Inv s -> Inv (run_schedule defs mode top prot preds guard fuel s sched).
   Proof.
-    intros top prot preds fuel sched. unfold run_schedule.
+    intros top prot preds guard fuel sched. unfold run_schedule.
     induction sched as [|e r IH]; intros s H; simpl; [exact H|]. apply IH. apply step_ok. exact H.
   Qed.
 
@@ -844,22 +844,24 @@ Section Reg.
   Qed.
 
   (* the marker a new trigger finds is always empty: whatever ran before in that asyncio task has reset it *)
-  Lemma inherited_none : forall top preds s e, RI s -> can_start top preds s e = true -> inherited_ctx preds s e = None.
+  Lemma inherited_none : forall top preds guard s e, RI s -> can_start top preds guard s e = true -> inherited_ctx preds s e = None.
   Proof.
-    intros top preds s e [_ [Hnd [_ [_ Hctx]]]] Hcs. unfold can_start in Hcs. unfold inherited_ctx.
+    intros top preds guard s e [_ [Hnd [_ [_ Hctx]]]] Hcs. unfold can_start in Hcs. unfold inherited_ctx.
     destruct (pred_of preds e) as [p|]; [|reflexivity].
+    apply andb_true_iff in Hcs. destruct Hcs as [Hcs _].
     apply andb_true_iff in Hcs. destruct Hcs as [_ Hex]. apply find_ctx_none; assumption.
   Qed.
 
-  Lemma step_RI : forall top prot preds fuel s e, RI s -> RI (step defs mode top prot preds fuel s e).
+  Lemma step_RI : forall top prot preds guard fuel s e, RI s -> RI (step defs mode top prot preds guard fuel s e).
   Proof.
-    intros top prot preds fuel s e HRI. unfold step.
+    intros top prot preds guard fuel s e HRI. unfold step.
     destruct (s_oof s); [exact HRI|].
-    destruct (can_start top preds s e) eqn:Hstart.
+    destruct (can_start top preds guard s e) eqn:Hstart.
     - apply deliver_all_RI.
-      rewrite (inherited_none top preds s e HRI Hstart).
+      rewrite (inherited_none top preds guard s e HRI Hstart).
       destruct HRI as [Hreg [Hnd [Hst [Hfin Hctx]]]].
       unfold can_start in Hstart. apply andb_true_iff in Hstart. destruct Hstart as [Hstart _].
+      apply andb_true_iff in Hstart. destruct Hstart as [Hstart _].
       apply andb_true_iff in Hstart. destruct Hstart as [_ Hns]. apply negb_true_iff in Hns.
       assert (Hnew : ~ In e (s_started s)).
       { intros Hin. unfold mem in Hns. assert (existsb (Nat.eqb e) (s_started s) = true).
@@ -906,9 +908,9 @@ Section Reg.
       rewrite (own_ctx_same t0 t1 Hid Hcx). exact Hown0.
   Qed.
 
-  Lemma schedule_RI : forall top prot preds fuel sched s, RI s -> RI (run_schedule defs mode top prot preds fuel s sched).
+  Lemma schedule_RI : forall top prot preds guard fuel sched s, RI s -> RI (run_schedule defs mode top prot preds guard fuel s sched).
   Proof.
-    intros top prot preds fuel sched. unfold run_schedule.
+    intros top prot preds guard fuel sched. unfold run_schedule.
     induction sched as [|e r IH]; intros s H; simpl; [exact H|]. apply IH. apply step_RI. exact H.
   Qed.
 
@@ -1116,25 +1118,25 @@ Proof.
     inversion Hd; subst. constructor; auto.
 Qed.
 
-Lemma all_schedules_hists : forall defs mode n top prot preds fuel inits sched,
+Lemma all_schedules_hists : forall defs mode n top prot preds guard fuel inits sched,
   forallb (wf_def n) defs = true -> Forall (fun x => x < n) inits ->
-  let s := run_schedule defs mode top prot preds fuel (init_state mode inits) sched in
+  let s := run_schedule defs mode top prot preds guard fuel (init_state mode inits) sched in
   Forall hist_ok (live_hists s ++ done_hists s) /\ Forall (fun x => x < n) (h_mstate (s_sh s)).
 Proof.
-  intros defs mode n top prot preds fuel inits sched Hwf Hin s. apply Inv_hists.
+  intros defs mode n top prot preds guard fuel inits sched Hwf Hin s. apply Inv_hists.
   apply schedule_ok; [exact Hwf|]. apply init_ok. exact Hin.
 Qed.
 
-Lemma all_schedules_quiescent : forall defs mode n top prot preds fuel inits sched,
+Lemma all_schedules_quiescent : forall defs mode n top prot preds guard fuel inits sched,
   forallb (wf_def n) defs = true -> Forall (fun x => x < n) inits ->
-  let s := run_schedule defs mode top prot preds fuel (init_state mode inits) sched in
+  let s := run_schedule defs mode top prot preds guard fuel (init_state mode inits) sched in
   h_reg (s_sh s) = reg_of (s_tasks s) /\
   (quiescent s = true -> h_reg (s_sh s) = [] /\ Forall (fun x => x < n) (h_mstate (s_sh s))).
 Proof.
-  intros defs mode n top prot preds fuel inits sched Hwf Hin s.
+  intros defs mode n top prot preds guard fuel inits sched Hwf Hin s.
   assert (HRI : RI s) by (apply schedule_RI; apply init_RI).
   split; [apply HRI|]. intros Hq. split; [apply quiescent_reg_empty; assumption|].
-  apply (all_schedules_hists defs mode n top prot preds fuel inits sched Hwf Hin).
+  apply (all_schedules_hists defs mode n top prot preds guard fuel inits sched Hwf Hin).
 Qed.
 
 Lemma no_set_after_cancel : forall l1 it l2 k m d,
@@ -1147,12 +1149,12 @@ Qed.
 (* the own-call-chain marker (current_context), for every schedule: an unfinished trigger task carries its own
    marker, a finished one — raised, cancelled or not — has reset it; so a trigger started next in the same asyncio
    task finds the marker empty and registers itself in async_tasks like any fresh task *)
-Lemma all_schedules_ctx : forall defs mode top prot preds fuel inits sched,
-  let s := run_schedule defs mode top prot preds fuel (init_state mode inits) sched in
+Lemma all_schedules_ctx : forall defs mode top prot preds guard fuel inits sched,
+  let s := run_schedule defs mode top prot preds guard fuel (init_state mode inits) sched in
   (forall t, In t (s_tasks s) -> (t_res t = None -> t_ctx t = Some (t_id t)) /\ (t_res t <> None -> t_ctx t = None)) /\
-  (forall e, can_start top preds s e = true -> inherited_ctx preds s e = None).
+  (forall e, can_start top preds guard s e = true -> inherited_ctx preds s e = None).
 Proof.
-  intros defs mode top prot preds fuel inits sched s.
+  intros defs mode top prot preds guard fuel inits sched s.
   assert (HRI : RI s) by (apply schedule_RI; apply init_RI).
   split.
   - intros t Ht. destruct HRI as [_ [_ [_ [_ Hctx]]]]. destruct (Hctx t Ht) as [H1 H2]. split; [|exact H2].
